@@ -322,6 +322,38 @@ pub trait InK<'a>: ValueInput<'a, Span = <Self as InK<'a>>::S, Token = <Self as 
     fn slice_with<C: Cfg<'a, Self>>(_p: BP<'a, Self, C>) -> BP<'a, Self, C> {
         unsupported("slice_with")
     }
+    /// `any_ref()` / `select_ref(..)`: only inputs that can lend their tokens (`BorrowInput`)
+    fn any_ref<C: Cfg<'a, Self>>() -> BP<'a, Self, C> {
+        unsupported("any_ref on an input that is not a BorrowInput")
+    }
+    fn select_ref<C: Cfg<'a, Self>>(_set: &'static str, _state_probe: bool) -> BP<'a, Self, C> {
+        unsupported("select_ref on an input that is not a BorrowInput")
+    }
+}
+
+/// the two by-reference leaves for a borrowing input kind
+#[macro_export]
+macro_rules! borrow_leaves {
+    () => {
+        fn any_ref<C: Cfg<'a, Self>>() -> BP<'a, Self, C> {
+            chumsky::primitive::any_ref().map(|t: &Self::T| Val::T(TokK::to_char(*t))).fin()
+        }
+        fn select_ref<C: Cfg<'a, Self>>(set: &'static str, st: bool) -> BP<'a, Self, C> {
+            chumsky::primitive::select_ref(move |t: &Self::T, e: &mut chumsky::input::MapExtra<'a, '_, Self, Ex<'a, Self, C>>| {
+                let c = TokK::to_char(*t);
+                if set.contains(c) {
+                    let v = Val::Tag(c);
+                    Some(match (st, e.state().obs()) {
+                        (true, Some((n, h))) => Val::Q(n, h, Box::new(v)),
+                        _ => v,
+                    })
+                } else {
+                    None
+                }
+            })
+            .fin()
+        }
+    };
 }
 
 impl<'a> InK<'a> for &'a str {
@@ -353,6 +385,7 @@ impl<'a> InK<'a> for &'a [char] {
     fn slice_with<C: Cfg<'a, Self>>(p: BP<'a, Self, C>) -> BP<'a, Self, C> {
         p.map_with(|_, e| chars_slice_val(e.slice())).fin()
     }
+    borrow_leaves!();
 }
 impl<'a> InK<'a> for &'a [u8] {
     type T = u8;
@@ -363,6 +396,7 @@ impl<'a> InK<'a> for &'a [u8] {
     fn slice_with<C: Cfg<'a, Self>>(p: BP<'a, Self, C>) -> BP<'a, Self, C> {
         p.map_with(|_, e| u8_slice_val(e.slice())).fin()
     }
+    borrow_leaves!();
 }
 
 pub trait Cfg<'a, I: InK<'a>>: Sized + 'static {
@@ -823,6 +857,8 @@ fn build0<'a, I: InK<'a>, C: Cfg<'a, I>>(g: &G, pr: Probes) -> BP<'a, I, C> {
             just([tk::<I>(a), tk::<I>(c)]).map(move |_| Val::P(bx(Val::T(a)), bx(Val::T(c)))).fin()
         }
         Any => any().map(|t: I::T| Val::T(t.to_char())).fin(),
+        AnyRef => I::any_ref::<C>(),
+        SelectRef(s) => I::select_ref::<C>(s, pr.state),
         OneOf(s) => one_of(set::<I>(s)).map(|t: I::T| Val::T(t.to_char())).fin(),
         NoneOf(s) => none_of(set::<I>(s)).map(|t: I::T| Val::T(t.to_char())).fin(),
         Select(s) => {
